@@ -137,7 +137,11 @@ def witness(prop, clause, tier, budget=None):
         try:
             j = json.loads(out)
         except ValueError:
-            return dict(status='witness-error', detail=(p.stdout + p.stderr)[-1500:])
+            if out.startswith('{"status":"found"'):
+                # the finding is real even if its text is not well-formed JSON: keep it as raw text
+                j = dict(status='found', property=prop, input=out[:1500], observed='(see input: raw witness output)', expected='')
+            else:
+                return dict(status='witness-error', detail=(p.stdout + p.stderr)[-1500:])
         if j.get('status') == 'found':
             # the search is seeded and deterministic: a genuine finding reproduces; anything else is discarded
             p2 = subprocess.run([exe, prop, budget], capture_output=True, text=True, timeout=900)
